@@ -150,6 +150,9 @@ pub struct Cfg {
     pub marketing: Option<u8>,
     /// chain-level (migration) admin of the token contract: has no authority inside the contract
     pub wasm_admin: Option<u8>,
+    /// the pre-0.14 table handed to `migrate` also holds a row (X, X) for actor 0 (old releases did not refuse
+    /// self-approvals): it must come out of the migration in all three views like any other row
+    pub legacy_self_row: bool,
 }
 
 impl Cfg {
@@ -180,6 +183,7 @@ impl Cfg {
             pre_allow: vec![],
             marketing: None,
             wasm_admin: None,
+            legacy_self_row: false,
         }
     }
     /// An actor named "^X" is the same account as X spelled in upper case (bech32 allows both cases);
@@ -1014,12 +1018,30 @@ impl Model for Cw20Model {
             }
             Act::MigrateOld { .. } | Act::MigrateSame => {
                 let tok = token_addr();
+                let mut injected = false;
                 if let Act::MigrateOld { version } = a {
                     wipe_namespace(&mut w, &tok, "allowance_spender");
                     let inst = w.contracts.get_mut(&tok).unwrap();
                     cw2::set_contract_version(&mut inst.store, "crates.io:cw20-base", OLD_VERSIONS[*version as usize])
                         .unwrap();
+                    if cfg.legacy_self_row {
+                        let x = cosmwasm_std::Addr::unchecked(cfg.addr(0));
+                        if !cw20_base::state::ALLOWANCES.has(&inst.store, (&x, &x)) {
+                            cw20_base::state::ALLOWANCES
+                                .save(&mut inst.store, (&x, &x), &AllowanceResponse { allowance: Uint128::new(1), expires: Expiration::Never {} })
+                                .unwrap();
+                            injected = true;
+                        }
+                    }
                 }
+                // with an injected legacy row the comparison baseline is the old-layout state just before migrate
+                let pre_injected;
+                let pre: &Obs = if injected {
+                    pre_injected = self.observe(&w).unwrap_or_default();
+                    &pre_injected
+                } else {
+                    pre
+                };
                 let out = w.migrate(&tok, b"{}");
                 if !out.ok() && cfg.props.c19 {
                     v.push(Violation::new("C19.migrate_fails", out.err()));
